@@ -234,6 +234,17 @@ class TreeSpec(SeqSpec):
                     present.append(k)
                 else:
                     ops.append(["del", k])
+            elif fl == "c01" and r < 0.04:
+                # several ranges alive at the same time (no mutation in between): each must yield exactly its own
+                # entries whatever other iterators of the same collection (or of a copy of the value) are doing
+                js = []
+                for _ in range(rng.choice([2, 2, 3])):
+                    ops.append(["iternew", rng.random() < 0.6, self.rbound(rng, K), self.rbound(rng, K)])
+                    js.append(nit)
+                    nit += 1
+                for _ in range(rng.choice([3, 8, 30])):
+                    for j in js:
+                        ops.append(["iternext", j])
             else:
                 k = rng.randrange(K)
                 c = rng.choices(["put", "del", "get", "contains", "len", "first", "last", "range", "rangerev"],
@@ -388,3 +399,87 @@ class TreeSpec(SeqSpec):
 
     def nontrivial(self, case, obs):
         return len(case["ops"]) >= 8
+
+
+class TreeBigIterSpec(TreeSpec):
+    """C02 at scale (oracle only: the ideal map + abstract re-seek iterator are evaluated in Python): trees of three and
+    four levels, dozens of iterators parked all over the key range, drains that force merges of INNER nodes, and after
+    every structural change the key each iterator is parked on is overwritten (or deleted) before its next Next."""
+    checkers = {}
+    informational = set()
+
+    def __init__(self):
+        TreeSpec.__init__(self, "c02")
+        self.checkers = {}
+
+    def shrinkable(self):
+        return False
+
+    def gen(self, rng, tier, scale):
+        cases = []
+        sizes = [420, 700, 1300] if tier == "quick" else [420, 700, 1300, 2600, 5000, 9000]
+        for n in sizes:
+            for drain in ("left", "right", "middle"):
+                cases.append(self.gen_big(rng, n, drain, rng.choice([0, 3])))
+        return cases
+
+    def gen_big(self, rng, n, drain, mode):
+        ideal = Ideal(mode)
+        ops = []
+        val = [1000]
+
+        def put(k):
+            val[0] += 1
+            ops.append(["put", k, val[0]])
+            ideal.put(k, val[0])
+
+        def delete(k):
+            ops.append(["del", k])
+            ideal.delete(k)
+        for k in range(0, 2 * n, 2):
+            put(k)
+        nit = 0
+        step = max(3, n // 60)
+        for start in range(0, 2 * n, 2 * step):
+            rev = rng.random() < 0.4
+            lo, hi = (["unb"], ["inc", start]) if rev else (["inc", start], ["unb"])
+            ops.append(["iternew", rev, lo, hi])
+            ideal.iter_new(rev, lo, hi)
+            ops.append(["iternext", nit])
+            ideal.iter_next(nit)
+            nit += 1
+        keys = list(range(0, 2 * n, 2))
+        if drain == "left":
+            victims = keys[: int(n * 0.8)]
+        elif drain == "right":
+            victims = keys[::-1][: int(n * 0.8)]
+        else:
+            mid = n // 2
+            victims = [keys[mid + ((-1) ** i) * (i // 2)] for i in range(int(n * 0.8)) if 0 <= mid + ((-1) ** i) * (i // 2) < n]
+        rounds = 0
+        for v in victims:
+            if ideal.cls(v) not in ideal.m:
+                continue
+            delete(v)
+            rounds += 1
+            if rounds % 2 == 0:
+                continue
+            # hit the key every live iterator is parked on, then advance it
+            for j, it in enumerate(ideal.its):
+                if it["cut"] or it["pos"] is None:
+                    continue
+                pk = it["pos"]
+                if pk in ideal.m:
+                    if rng.random() < 0.8:
+                        put(pk)              # overwrite: the iterator must yield the NEW value
+                    else:
+                        delete(pk)           # or remove it: the iterator must move on
+                if rng.random() < 0.7:
+                    ops.append(["iternext", j])
+                    ideal.iter_next(j)
+            if len(ops) > 60000:
+                break
+        return {"component": "tree", "cfg": {"mode": mode, "set": False}, "ops": ops}
+
+    def coq_case(self, case, obs):
+        return ""
